@@ -74,7 +74,8 @@ class SyncSpa:
         self.struct = GeckoStructure(lambda p, n, v: self.sets.append((p, n, v)))
         P, C, L = tables(plat, c, l)
         self.struct.set_status_block(block)
-        self.struct.build_accessors(C(self.struct), L(self.struct))
+        self.config_class, self.log_class = C(self.struct), L(self.struct)
+        self.struct.build_accessors(self.config_class, self.log_class)
 
     @property
     def accessors(self):
